@@ -137,6 +137,9 @@ def apply_damage(L, c, spec, initial_parity):
                 fh.write(data)
     elif k == "parity-garbage":
         F.corrupt_parity(L, spec[1])
+    elif k == "multi":
+        for sub in spec[1]:
+            apply_damage(L, c, tuple(sub), initial_parity)
 
 
 def selected(flt, disk, sub, present_before, has_bad):
@@ -485,6 +488,37 @@ def run(ctx):
             ctx.cap("%s: deadline during damage sweep (%d of %d cases done)" % (cfg.short(), done, len(jobs)))
         ctx.set("targets[%s]" % cfg.short(), len(states))
         ctx.set("damage_cases[%s]" % cfg.short(), done)
+    # ---- blocks WITHOUT a recorded hash (a new file whose sync was killed after the parity update) lost together with every subset of
+    # the parity levels that still leaves the stripe within the parity count: fix can only cross-check the parities against each
+    # other, over every combination; whatever it writes must be the file's bytes or be reported unrecoverable
+    import itertools
+    for cfg in [Config(levels=3, ndisks=3)] + ([Config(levels=4, ndisks=2), Config(levels=3, z=True, ndisks=2)] if tier == "thorough" else []):
+        if ctx.out_of_time():
+            ctx.cap("deadline before the no-hash part " + cfg.short())
+            break
+        hist = init_ops(cfg) + [("write", "d2", "B", 1900, 0), ("cmd", "sync", "--test-kill-after-sync")]
+        with labmod.Lab(cfg, seed=ctx.seed) as L0:
+            for op in hist:
+                X.apply_op(L0, op)
+            saved = L0.save()
+        jobs = []
+        for n in range(1, cfg.levels):
+            for S in itertools.combinations(range(cfg.levels), n):
+                for how in ("parity-garbage", "lost"):
+                    if how == "lost":
+                        spec = ("multi", (("rm", "d2", "B"), ("lost", tuple(("parity", l) for l in S))))
+                    else:
+                        spec = ("multi", (("rm", "d2", "B"),) + tuple((how, l) for l in S))
+                    jobs.append((cfg, saved, spec, (), ctx.seed, {}))
+        for job, r in par.pmap(damage_job, jobs, deadline=ctx.deadline):
+            evals += 1
+            spec = job[2]
+            ctx.outcome(("no-hash", r["rc"]))
+            ctx.nontrivial((cfg.short(), "no-hash", repr(spec)))
+            for v, key in zip(r["viols"], r["sig"] or []):
+                ctx.violation(key, "%s in %s (new file without hashes), damage %r" % (v["kind"], cfg.short(), spec),
+                              dict(cfg=cfg.describe(), history=hist, damage=spec, filter=(), violation=v))
+        ctx.set("nohash_cases[%s]" % cfg.short(), len(jobs))
     ctx.set("states", tot_states)
     ctx.set("transitions", tot_trans + evals)
     ctx.set("evaluations", evals)
